@@ -71,6 +71,18 @@ inductive CType where
   | wrongExtends   -- a different media type that has the Arrow stream type as a proper prefix (`…stream2`, `…stream+json`)
 deriving Repr, DecidableEq
 
+/-- how a compressed body reaches the size check of the decoder -/
+inductive Coding where
+  | gzip          -- bounded streaming loop over the deflate stream
+  | zstdSized     -- one-shot zstd frame whose header declares the content size (what the reference clients send)
+  | zstdStream    -- zstd frame without a declared content size (streaming compressors)
+deriving Repr, DecidableEq
+
+/-- the comparison a size guard uses to *refuse*: `size > cap`, `size >= cap` -/
+inductive SizeOp where
+  | gt | ge | unknown
+deriving Repr, DecidableEq
+
 /-- `Content-Encoding` of the request -/
 inductive CEnc where
   | none
@@ -78,11 +90,13 @@ inductive CEnc where
   | unsupported    -- a codec the server does not decode
   | corrupt        -- a supported codec named, body does not decode
   | bomb           -- a supported codec, body decodes to more than the request cap
+  | atCap (c : Coding)   -- a supported codec, body decodes to *exactly* `max_request_bytes` bytes (within the cap)
 deriving Repr, DecidableEq
 
 /-- wire size of the body against `max_request_bytes` -/
 inductive Size where
   | within | oversize
+  | atCap          -- exactly `max_request_bytes` bytes on the wire (within the cap)
 deriving Repr, DecidableEq
 
 /-- outcome of the `authenticate` callback -/
@@ -176,6 +190,11 @@ structure Tables where
   initGuardStatus : Nat
   exchangeGuardOp : CmpOp
   exchangeGuardStatus : Nat
+  /-- refusal comparisons of the size guards: `_MaxRequestBytesMiddleware` (`Content-Length <op> max`, and the
+      chunked path `len(body) <op> max`), and per coding the output-cap check of `vgi_rpc/_codec.py` -/
+  wireSizeOp : SizeOp
+  chunkedSizeOp : SizeOp
+  decodeSizeOp : Coding → SizeOp
   /-- `make_wsgi_app` -/
   middlewareOrder : List Mw
   sizeCap : Refusal
@@ -195,6 +214,11 @@ structure Tables where
   producerFail : Nat
   unaryOvershoot : Nat
   exchangeOvershoot : Nat
+
+/-- does a guard written `size <op> cap` refuse a size that is exactly the cap? -/
+def SizeOp.refusesAtCap : SizeOp → Bool
+  | .ge => true
+  | _ => false
 
 def MethodKind.isStream : MethodKind → Bool
   | .producer | .exchanger => true
